@@ -113,6 +113,7 @@ def ctxUses : List (String × String × Nat) := [
   ("Runner.readLine", "AfterFunc", 1),
   ("Runner.readLine+closure", "SetReadDeadline", 2),
   ("DefaultExecHandler+closure", "CommandContext", 1),
+  ("DefaultExecHandler+closure", "ctx.Err", 2),
   -- places that call (*os.File).Fd on, or hand to os/exec, a file that may be the runner's stdin:
   -- Fd() switches the file to blocking mode, after which SetReadDeadline no longer interrupts a
   -- read — the `deadline` class of readLine/mapfile holds only while none of these has touched the
